@@ -1,15 +1,17 @@
 """C15 — callstacks take the sampled frames and attribute each to the right image."""
 from .. import vlib
-from ..translate import tr_handlers, tr_composite
+from ..translate import tr_handlers, tr_composite, tr_callstacks
 from . import composite_common as cc
 
-TRANSLATORS = [tr_handlers.translate, tr_composite.translate]
+TRANSLATORS = [tr_handlers.translate, tr_composite.translate, tr_callstacks.translate]
 MODEL_TARGETS = ['theories/CompositeCases.vo']
 PROOF_TARGETS = ['props/C15.vo']
 PROP_FILE = 'props/C15.v'
 ASSUMPTIONS = [
-    'dyld_addresses / dyld_uuids (two parallel lists receiving the same insert at the same index) are modelled as one '
-    'list of pairs; bisect.bisect on a sorted list = number of elements <= x (validated by the correspondence)',
+    'dyld_addresses / dyld_uuids (two parallel lists) are modelled as one list of pairs; that the statements of the current '
+    'source, run on the two lists (list.insert, negative indexing, IndexError written out), compute that model is proved '
+    '(c15_code_refines_model over gen/GenCallstacks.v); bisect.bisect on a list = number of elements <= x (holds on sorted '
+    'lists, which is the invariant; validated by the correspondence)',
     'the sampler decoder (perf.handle_event) and the launch decoder are the hand models of Composite.v, validated here '
     'through the real decoders; pairing of START/END into windows is C04',
 ]
